@@ -10,7 +10,7 @@ mkdir -p "/verif/seeded/$ID"
 cp "$SRC/patch.diff" "$SRC/demo.py" "/verif/seeded/$ID/" || exit 2
 cd "$WT"
 cp "/verif/seeded/$ID/demo.py" "$WT/demo.py"
-sed -i "s#/tmp/wt_[A-Za-z0-9]*#$WT#g; s#/tmp/sa3_[A-Za-z0-9]*#$WT#g; s#/tmp/sa4_[A-Za-z0-9]*#$WT#g; s#/tmp/sa5_[A-Za-z0-9]*#$WT#g; s#/tmp/sa6_[A-Za-z0-9]*#$WT#g; s#/tmp/sa7_[A-Za-z0-9]*#$WT#g; s#/tmp/sa8_[A-Za-z0-9]*#$WT#g; s#/tmp/sa9_[A-Za-z0-9]*#$WT#g" "$WT/demo.py"
+sed -i "s#/tmp/wt_[A-Za-z0-9]*#$WT#g; s#/tmp/sa3_[A-Za-z0-9]*#$WT#g; s#/tmp/sa4_[A-Za-z0-9]*#$WT#g; s#/tmp/sa5_[A-Za-z0-9]*#$WT#g; s#/tmp/sa6_[A-Za-z0-9]*#$WT#g; s#/tmp/sa7_[A-Za-z0-9]*#$WT#g; s#/tmp/sa8_[A-Za-z0-9]*#$WT#g; s#/tmp/sa9_[A-Za-z0-9]*#$WT#g; s#/tmp/sa10_[A-Za-z0-9]*#$WT#g" "$WT/demo.py"
 run_demo() { (cd "$WT" && OMP_NUM_THREADS=1 PYTHONPATH="$WT/src" timeout 900 /venv/bin/python "$WT/demo.py" > "/tmp/vs_${ID}_demo_$1.log" 2>&1; echo $?); }
 D0=$(run_demo clean)
 git apply "/verif/seeded/$ID/patch.diff" || { echo "PATCH DOES NOT APPLY"; exit 2; }
